@@ -256,3 +256,60 @@ func verifHarness_C20_size_ranges_aligned_T() {
 	verifC20GrowFreeMallocRanges(NewAligned(), 70, 3, 70, "Aligned")
 	verifAssert(false, "witness")
 }
+
+// One step from an arbitrary valid pool state (instead of the history that
+// would build it): the pool holds up to two free buffers of any capacity a
+// history can produce and ANY stale length and garbage contents — Free accepts
+// a buffer at whatever length its last owner left it — then one Malloc and one
+// grow operation with solver-chosen sizes must honour their contracts.
+func verifHarness_C20_step_from_arbitrary_pool_state() {
+	verifBound("pooled_free_buffers", 1)
+	verifBound("size_max", 10)
+	verifPoolMode(1)
+	mp := New(8, 16).(*MemPool)
+	{
+		c := []int{8, 16}[verifChoose("pooled_cap", 2)]
+		l := []int{0, 2, c}[verifChoose("pooled_len", 3)]
+		b := make([]byte, c)
+		for j := range b {
+			b[j] = 0xEE
+		}
+		b = b[:l]
+		mp.pool.Put(&b)
+	}
+	s1 := verifInt("malloc", 0, 10)
+	p := mp.Malloc(s1)
+	verifAssertD(len(*p) == s1, "malloc-length", "from-arbitrary-pool")
+	n1 := len(*p)
+	old := verifBytes("old", n1)
+	copy(*p, old)
+	s2 := verifConc(verifInt("grow", 0, 5))
+	more := verifBytes("more", s2)
+	switch verifChoose("grow_op", 4) {
+	case 0:
+		p = mp.Append(p, more...)
+	case 1:
+		p = mp.AppendString(p, string(more))
+	case 2:
+		p = mp.Realloc(p, n1+s2)
+		verifAssertD(len(*p) == n1+s2, "realloc-length", "from-arbitrary-pool")
+		if len(*p) == n1+s2 {
+			copy((*p)[n1:], more)
+		}
+	default: // shrink
+		more = nil
+		k := verifConc(verifInt("shrink_to", 0, n1))
+		p = mp.Realloc(p, k)
+		verifAssertD(len(*p) == k, "realloc-length", "shrink")
+		old = old[:k]
+	}
+	want := append(append([]byte(nil), old...), more...)
+	verifAssertD(len(*p) == len(want) && verifEqBytes(*p, want), "contents-preserved", "from-arbitrary-pool")
+	q := mp.Malloc([]int{0, 9}[verifChoose("malloc2", 2)])
+	for i := range *q {
+		(*q)[i] = 0xAA
+	}
+	verifAssertD(!verifC20Overlap(*q, *p), "live-buffers-disjoint", "from-arbitrary-pool")
+	verifAssertD(len(*p) == len(want) && verifEqBytes(*p, want), "contents-preserved", "bystander-of-malloc")
+	verifAssert(false, "witness")
+}
